@@ -305,7 +305,8 @@ func findNextNodeAfterComment(file *ast.File, commentPos token.Pos) token.Pos {
 
 		// Skip nodes that start before or at comment position
 		if n.Pos() <= commentPos {
-			if n.End() > commentPos && n.End() < enclosingEnd {
+			// (<=: a switch statement ends where its body block ends, the block is the inner one)
+			if n.End() > commentPos && n.End() <= enclosingEnd {
 				enclosingEnd = n.End()
 				enclosingPos = n.Pos()
 			}
